@@ -2548,9 +2548,12 @@ class ProvDocument(ProvBundle):
                     os.remove(name)
             except BaseException:
                 # do not leave the temporary file next to the destination
-                stream.close()
-                if os.path.exists(name):
-                    os.remove(name)
+                # (closing may fail again while flushing what is buffered)
+                try:
+                    stream.close()
+                finally:
+                    if os.path.exists(name):
+                        os.remove(name)
                 raise
 
     @staticmethod
